@@ -141,9 +141,14 @@ def root_of(base):
                 continue
             # a row view: (impl_ reference, offset_) is handled by the caller through elem()
             raise Unresolved("record with %d fields as storage: %s" % (len(fields), sx.show(base)))
+        if t == "new" and base[2] == "agg" and base[1].endswith("]"):
+            return ("list", list(base[3]))      # a built-in array aggregate
         el = sx.list_elems(base)
         if el is not None:
-            return ("list", list(el))
+            el = list(el)
+            if len(el) == 1 and isinstance(el[0], tuple) and el[0] and el[0][0] == "new" and el[0][2] == "agg" and el[0][1].endswith("]"):
+                return ("list", list(el[0][3]))  # std::array holding one built-in array aggregate
+            return ("list", el)
         raise Unresolved("unknown storage form: %s" % sx.show(base))
 
 
